@@ -344,4 +344,41 @@ theorem reach_of_anchoredB (g : Grid) (fixed : List Nat) (h : anchoredB g fixed 
       · exact h2 hfree.1
       · exact hfree.2 h2
 
+/-! ### first step of a rate: next to the frame the error shrinks by the factor `1 - 1/degree` -/
+
+theorem sum_le_of_le_of_zero (l : List Rat) (M : Rat) (h : ∀ x ∈ l, x ≤ M) (y : Rat) (hy : y ∈ l)
+    (h0 : y ≤ 0) : l.sum ≤ ((l.length : Rat) - 1) * M := by
+  induction l with
+  | nil => simp at hy
+  | cons a l ih =>
+    have h1 := h a (by simp)
+    have hl : ∀ x ∈ l, x ≤ M := fun x hx => h x (by simp [hx])
+    simp only [List.sum_cons, List.length_cons]
+    push_cast
+    rcases List.mem_cons.mp hy with rfl | hy'
+    · have := sum_le_of_le l M hl; linarith
+    · have := ih hl hy'; linarith
+
+/-- the update of a free junction that has a neighbour with no error (a boundary or fixed point of the same rim):
+    its new error is at most `(1 - 1/degree)·M` when all errors are at most `M ≥ 0` -/
+theorem step_err_contract {c : V3 → Rat} (hc : IsLin c) (nbrs : Nat → List Nat) (fixed : List Nat) (q p : List V3)
+    (j t : Nat) (hf : j ∉ fixed) (hl : j < p.length)
+    (hq : pget q j = avg ((nbrs j).map (pget q)))
+    (ht : t ∈ nbrs j) (ht0 : c (pget p t) - c (pget q t) ≤ 0)
+    (M : Rat) (hM : ∀ i, c (pget p i) - c (pget q i) ≤ M) :
+    c (pget (step nbrs fixed p j) j) - c (pget q j) ≤ (1 - 1 / ((nbrs j).length : Rat)) * M := by
+  unfold step
+  simp only [List.contains_iff_mem, hf, if_false]
+  rw [pget_set_self _ _ _ hl, hq, avg_diff hc]
+  have hne : nbrs j ≠ [] := by intro h0; rw [h0] at ht; simp at ht
+  have hpos := len_pos_of_ne_nil (nbrs j) hne
+  have hs := sum_le_of_le_of_zero ((nbrs j).map (fun t => c (pget p t) - c (pget q t))) M
+    (fun x hx => by obtain ⟨s, _, rfl⟩ := List.mem_map.mp hx; exact hM s)
+    (c (pget p t) - c (pget q t)) (List.mem_map.mpr ⟨t, ht, rfl⟩) ht0
+  rw [List.length_map] at hs
+  rw [div_le_iff₀ hpos]
+  have : (1 - 1 / ((nbrs j).length : Rat)) * M * ((nbrs j).length : Rat) = (((nbrs j).length : Rat) - 1) * M := by
+    field_simp
+  linarith
+
 end CBV.C15
